@@ -33,7 +33,9 @@ PREOPENED = {
     "preopened-dele-stor": ["PASV", "@data", "DELE g", "CWD d", "STOR new", "@dsend 0123", "@dclose"],
     "preopened-mlst-list": ["EPSV", "@data", "MLST d", "RNFR g", "RNTO h", "LIST"],
 }
-SCRIPTS = dict(corpus.SCRIPTS)
+# (the scripts that re-login while a transfer is under way are C12's: replies of the transfer and of the login
+# commands interleave there, which this check's per-command attribution does not follow)
+SCRIPTS = {k: v for k, v in corpus.SCRIPTS.items() if not k.endswith("-then-relogin")}
 SCRIPTS.update(EXTRA_SCRIPTS)
 SCRIPTS.update(PREOPENED)
 OTHER_SCRIPT = ["EPSV", "@data", "RETR o", "PWD", "MLST o"]
